@@ -3,8 +3,9 @@ C10 / C14 — part 2: `_create_new_header` and `create_header` are functions of 
 
 `createNewHeader` sorts each section (`sortTexts`, invariant under permutation) and compares sets (`sameSet`,
 a function of membership); `createHeader` forms unions (`dedup (a ++ b)`: duplicate-free, so two unions with
-the same members are permutations of each other).  The merge step (`--merge-copyrights`) enters as an abstract
-hypothesis here (`hmerge`); `Lemmas/C10OrderMerge.lean` says when it holds.
+the same members are permutations of each other).  The merge step (`--merge-copyrights`, `mergeLines`) iterates
+over the *sorted* lines (fixes/c10-merge-order.diff), so it is a function of the multiset too (`mergeLines_perm_eq`);
+`Lemmas/C10OrderMerge.lean` says what happens without the sort.
 -/
 import ReuseVerif.Lemmas.C10OrderSort
 import ReuseVerif.Lemmas.Merge
@@ -57,6 +58,11 @@ theorem sameSet_congr {a a' b b' : List Text} (h1 : SameMembers a a') (h2 : Same
 theorem sameSet_left {a a' : List Text} (h : SameMembers a a') (b : List Text) : sameSet a b = sameSet a' b :=
   sameSet_congr h (.refl b)
 
+/-- **`merge_copyright_lines` does not depend on the order of its input**: it iterates over `sorted(...)`. -/
+theorem mergeLines_perm_eq {l₁ l₂ : List Text} (h : l₁.Perm l₂) : mergeLines l₁ = mergeLines l₂ := by
+  unfold mergeLines
+  rw [sortTexts_perm_eq h]
+
 /-- **`_create_new_header` does not depend on the order of the three sets.** -/
 theorem createNewHeader_perm (c : HdrCfg) {i j : Extracted} (hc : i.cpr.Perm j.cpr) (hn : i.con.Perm j.con)
     (hl : i.lic.Perm j.lic) : createNewHeader c i = createNewHeader c j := by
@@ -105,12 +111,15 @@ theorem createHeader_eq (c : HdrCfg) (i : Extracted) (header : Text) :
     cases hp : (extractRaw header).lic.all c.parses <;> simp [bind, Except.bind, throw, throwThe, MonadExceptOf.throw]
 
 /-- **`create_header` with an existing header: a function of the requested sets.**  Two requests with the same
-    members in each section — whatever their order, with or without repetitions — give the same header.  With
-    `--merge-copyrights`, provided the merge step gives the same lines up to order (`hmerge`). -/
+    members in each section — whatever their order, with or without repetitions — give the same header, with
+    and without `--merge-copyrights`. -/
 theorem createHeader_sameMembers_old (c : HdrCfg) {i j : Extracted} {header : Text} (hne : header.isEmpty = false)
-    (hc : SameMembers i.cpr j.cpr) (hn : SameMembers i.con j.con) (hl : SameMembers i.lic j.lic)
-    (hmerge : c.merge = true → (mergeLines (cprInput i header)).Perm (mergeLines (cprInput j header))) :
+    (hc : SameMembers i.cpr j.cpr) (hn : SameMembers i.con j.con) (hl : SameMembers i.lic j.lic) :
     createHeader c i header = createHeader c j header := by
+  have hin : (cprInput i header).Perm (cprInput j header) :=
+    (cprInput_sameMembers hc header).perm
+      (by unfold cprInput; simp only [hne, Bool.false_eq_true, if_false]; exact dedup_nodup _)
+      (by unfold cprInput; simp only [hne, Bool.false_eq_true, if_false]; exact dedup_nodup _)
   rw [createHeader_eq, createHeader_eq]
   simp only [hne, Bool.false_eq_true, if_false]
   split
@@ -118,29 +127,26 @@ theorem createHeader_sameMembers_old (c : HdrCfg) {i j : Extracted} {header : Te
   · apply createNewHeader_perm
     · show List.Perm (if c.merge = true then _ else _) (if c.merge = true then _ else _)
       by_cases hm : c.merge = true
-      · simp only [hm, if_true]; exact hmerge hm
-      · simp only [hm]
-        exact (cprInput_sameMembers hc header).perm
-          (by unfold cprInput; simp only [hne, Bool.false_eq_true, if_false]; exact dedup_nodup _)
-          (by unfold cprInput; simp only [hne, Bool.false_eq_true, if_false]; exact dedup_nodup _)
+      · simp only [hm, if_true]; rw [mergeLines_perm_eq hin]
+      · simp only [hm]; exact hin
     · exact unionTexts_perm (.refl _) hn
     · exact dedup_perm (((SameMembers.refl _).append hl).map c.normLic)
 
-/-- **`create_header` does not depend on the order of the requested sets** (any header text, also none). -/
+/-- **`create_header` does not depend on the order of the requested sets** (any header text, also none; with
+    and without `--merge-copyrights`). -/
 theorem createHeader_perm (c : HdrCfg) {i j : Extracted} (header : Text)
-    (hc : i.cpr.Perm j.cpr) (hn : i.con.Perm j.con) (hl : i.lic.Perm j.lic)
-    (hmerge : c.merge = true → (mergeLines (cprInput i header)).Perm (mergeLines (cprInput j header))) :
+    (hc : i.cpr.Perm j.cpr) (hn : i.con.Perm j.con) (hl : i.lic.Perm j.lic) :
     createHeader c i header = createHeader c j header := by
   cases hh : header.isEmpty with
   | false =>
-    exact createHeader_sameMembers_old c hh (.of_perm hc) (.of_perm hn) (.of_perm hl) hmerge
+    exact createHeader_sameMembers_old c hh (.of_perm hc) (.of_perm hn) (.of_perm hl)
   | true =>
     rw [createHeader_eq, createHeader_eq]
     simp only [hh, if_true]
     apply createNewHeader_perm
     · show List.Perm (if c.merge = true then _ else _) (if c.merge = true then _ else _)
       by_cases hm : c.merge = true
-      · simp only [hm, if_true]; exact hmerge hm
+      · simp only [hm, if_true]; rw [mergeLines_perm_eq (cprInput_perm hc header)]
       · simp only [hm]; exact cprInput_perm hc header
     · exact hn
     · exact hl
